@@ -52,7 +52,7 @@ ASSUMPTIONS = [
     "whitened values through conjugate gradients (2-D sigma_k, pooling/fits with V) are compared "
     "at atol 1e-4 (library cg rtol 1e-5)",
     "fits: bases with cond(X X') > 1e8 (with V: cond(X V^-1 X') > 1e4) are outside the domain "
-    "(solution not determined to the stated tolerance); fit_regress(_nn) pool the data without "
+    "(solution not determined to the stated tolerance; with V the tolerance is 1e-4*max(1, cond/100)); fit_regress(_nn) pool the data without "
     "sigma_k also for complete RDMs, the reference does the same",
     "numpy.linalg.inv/solve and scipy.optimize.nnls are trusted",
 ]
@@ -507,11 +507,13 @@ def fit_case(draw):
 
 
 def fit_reference(xb, y, fn, v):
-    """theta (unit length) of the (non-negative) generalised least squares fit of y by xb rows"""
+    """theta (unit length) of the (non-negative) generalised least squares fit of y by xb rows,
+    and the condition number of the normal equations"""
     k = len(xb)
     vi = np.eye(xb.shape[1]) if v is None else np.linalg.inv(v)
     gram = xb @ vi @ xb.T
-    if np.linalg.cond(gram) > (1e8 if v is None else 1e4):
+    cond = float(np.linalg.cond(gram))
+    if cond > (1e8 if v is None else 1e4):
         raise Reject('collinear basis', 'degenerate:collinear-basis')
     if fn == 'regress':
         theta = np.linalg.solve(gram, xb @ vi @ y)
@@ -525,9 +527,11 @@ def fit_reference(xb, y, fn, v):
         if np.any((theta == 0) & (np.abs(grad) < 1e-6 * max(1.0, np.abs(grad).max()))):
             raise Reject('degenerate active set', 'degenerate:nnls-boundary')
     nrm = math.sqrt(float(theta @ theta))
-    if nrm == 0:
-        return np.zeros(k)
-    return theta / nrm
+    fitted = theta @ xb
+    if float(fitted @ vi @ fitted) < 1e-12 * float(y @ vi @ y):
+        # y is orthogonal to the basis: the direction of theta is rounding noise
+        raise Reject('data orthogonal to the basis', 'degenerate:orthogonal-data')
+    return theta / nrm, cond
 
 
 def check_fit(case):
@@ -582,10 +586,17 @@ def check_fit(case):
     # (also for complete RDMs), so the reference pools with the sigma_k=None V sub-block
     v_pool = cref.dense_v_kept(n, keep, None) if method in WHITENED else None
     y = pooled_ref(xd, method, 'pooling', v_pool)
+    try:
+        cref.check_pooled(y, method)
+    except cref.Degenerate as e:
+        raise Reject(str(e), 'degenerate:zero-pool')
     if method in cref.CORR_TYPES:
         xb = xb - xb.mean(axis=1, keepdims=True)
         y = y - y.mean()
-    want = fit_reference(xb, y, case['fn'], v)
+    want, cond = fit_reference(xb, y, case['fn'], v)
+    # library whitening solves V x = b by conjugate gradients (rtol 1e-5); the error of theta
+    # grows with the conditioning of the normal equations
+    atol = TOL_CG * max(1.0, cond / 100.0) if v is not None else 1e-7
     with core.watchdog(10):
         theta = lib(fn, model, data, method=method, sigma_k=sk, on_error='violation',
                     sig=sig + ':raises', **kwargs)
@@ -594,7 +605,7 @@ def check_fit(case):
     require_close(theta, want, 'fit_%s(%s, %s) with %d missing entries (%s mask) vs the fit on the '
                   'remaining entries' % (case['fn'], method, sigma_label(case['sigma']),
                                          int((~keep).sum()), case['mask_kind']),
-                  sig, rtol=0, atol=TOL_CG if v is not None else 1e-7)
+                  sig, rtol=0, atol=atol)
 
 
 def classify_fit(case):
